@@ -12,8 +12,8 @@ import (
 
 // VerifC01Table: blacklist loop and route loop of Table.Dispatch against per-entry verdicts.
 func VerifC01Table() {
-	nb := verifChoice("nblack", 4)
-	nr := verifChoice("nroutes", 4)
+	nb := verifChoice("nblack", verifParamInt("max", 3)+1)
+	nr := verifChoice("nroutes", verifParamInt("max", 3)+1)
 	t := verifNewTable(m20.NoneLegacy, m20.NoneM20, false)
 	var routes []*verifCapRoute
 	for i := 0; i < nb; i++ {
